@@ -33,6 +33,9 @@ CHECKS = {
  "C03": dict(cat="proof", tech="machine-checked proof in Coq (storage-typing preservation) + extracted-model/implementation correspondence with type-tag dumps",
    text="6 Coq theorems: on the same interpreter model, every cycle of every T-typed program preserves 'each variable holds its declared kind, in range' across any sequence of cycles and declaration-conforming external writes - for programs with typed literals on the code as it is, and for all T programs with the converting assignment; per write path lemmas (assignment, FOR control update, external write); the store-as-is assignment is refuted by a witness. Tied to the code by dumping all variables with their runtime type tags after every cycle of generated programs.",
    note="Known finding assign-uncoerced (the unedited suite pins the defect, so it cannot be repaired by a fix: commit). I/O latch typing is covered by C07; debugger writes and restart are outside this model."),
+ "C02": dict(cat="proof", tech="machine-checked proof in Coq of the reference semantics' IEC laws + extracted reference evaluator judging the implementation's traces",
+   text="An independent statically typed reference semantics R (Model/StRef.v, written from IEC 61131-3 and docs/specs) is proved to have the laws the property names (11 theorems: exact arithmetic in the operand type with a fault exactly on overflow for +,-,*; division truncating toward zero with the remainder identity; division/modulo by zero; AND/OR short circuit; FOR bound tested before each iteration; assignment converting to the declared type with a range check) and a witness that the interpreter as it is hides an overflow of the declared type. The extracted R is run on every generated program next to the real interpreter: values of all variables after every cycle and the fault must agree. Partial: the refinement theorem 'interpreter model = R wherever R does not fault' is checked per generated case, not yet proved.",
+   note="Known finding overflow-in-declared-type. Same generated programs, harness and interpreter model as C01/C03."),
 }
 REASON_TODO = "check not built yet (work in progress; see DESIGN.md §5 order of work)"
 NA = {}
